@@ -507,7 +507,7 @@ def generate(prop, seed, tier="quick", fault_free=False):
             if w.random() < 0.12:
                 # resource fault: few frames left for the recursive rewrite, as for a much
                 # deeper query.  Failing with RecursionError is fine, a wrong answer is not.
-                op["stack"] = w.choice([40, 70, 110, 160, 340, 400])
+                op["stack"] = w.choice([12, 20, 30, 40, 55, 70, 90, 110, 160, 340, 400])
             ops.append(op)
             n_served += 1
         elif r < 0.55:
